@@ -1,4 +1,5 @@
 import PyYetiVerif.Props.C02g
+import PyYetiVerif.Props.C02i
 import PyYetiVerif.Lemmas.FreqWitness
 /-!
 # C02 — non-vacuity of `colSU_solves` / `colFD_solves`
@@ -96,5 +97,55 @@ example : (∃ sol, colFD envUnc lay (fun _ => 1) 1 = .ok sol ∧
     | ok sol =>
       exact ⟨sol, rfl, colFD_solves envCoup (fun x => by simp [envCoup]) lay (by decide) (fun _ => 1) 2
         rfl rfl (fun h => by cases h) (fun h => by cases h) sol h⟩
+
+/-- the option theorems: `incrb = "v"`, `rf_disp_only = True` on the same systems -/
+example : (∃ sol, colSU { envUnc with inc := ⟨false, true, false⟩, dispOnly := true } stUnc true none
+        (fun _ => 1) 1 = .ok sol ∧ sol.length = 3 ∧
+      sol.map (fun x => (x.d, x.v, x.a)) = [(0, 3, 0), (2, 4, 3), (2, 0, 0)]) ∧
+    (∃ sol, colFD { envCoup with inc := ⟨false, true, false⟩, dispOnly := true } lay
+        (fun _ => 1) 2 = .ok sol ∧ sol.length = 3) := by
+  constructor
+  · have href : ∃ solRef, colSU (ColEnv.ref { envUnc with inc := ⟨false, true, false⟩, dispOnly := true })
+        stUnc true none (fun _ => 1) 1 = .ok solRef ∧
+        solRef.map (fun x => (x.d, x.v, x.a)) = [(4, 3, 1), (2, 4, 3), (2, 4, 3)] := by
+      have hres : (match colSU (ColEnv.ref { envUnc with inc := ⟨false, true, false⟩, dispOnly := true })
+            stUnc true none (fun _ => 1) 1 with
+          | .ok sol => sol.map fun x => (x.d, x.v, x.a)
+          | .error _ => []) = [(4, 3, 1), (2, 4, 3), (2, 4, 3)] := by decide +kernel
+      cases h : colSU (ColEnv.ref { envUnc with inc := ⟨false, true, false⟩, dispOnly := true })
+          stUnc true none (fun _ => 1) 1 with
+      | error m => rw [h] at hres; cases hres
+      | ok sol => rw [h] at hres; exact ⟨sol, rfl, hres⟩
+    obtain ⟨solRef, href, hvals⟩ := href
+    obtain ⟨sol, hsol, hlen, hrows⟩ := colSU_options
+      { envUnc with inc := ⟨false, true, false⟩, dispOnly := true } lay (by decide) (by decide) (by decide)
+      true (fun _ => rfl) stUnc (by decide) none (fun _ => 1) 1 solRef href
+    refine ⟨sol, hsol, hlen, ?_⟩
+    have hres : (match colSU { envUnc with inc := ⟨false, true, false⟩, dispOnly := true } stUnc true none
+          (fun _ => 1) 1 with
+        | .ok sol => sol.map fun x => (x.d, x.v, x.a)
+        | .error _ => []) = [(0, 3, 0), (2, 4, 3), (2, 0, 0)] := by decide +kernel
+    rw [hsol] at hres
+    exact hres
+  · have href : ∃ solRef, colFD (ColEnv.ref { envCoup with inc := ⟨false, true, false⟩, dispOnly := true })
+        lay (fun _ => 1) 2 = .ok solRef := by
+      have hres : (match colFD (ColEnv.ref { envCoup with inc := ⟨false, true, false⟩, dispOnly := true })
+            lay (fun _ => 1) 2 with
+          | .ok sol => sol.length
+          | .error _ => 0) = 3 := by decide +kernel
+      cases h : colFD (ColEnv.ref { envCoup with inc := ⟨false, true, false⟩, dispOnly := true })
+          lay (fun _ => 1) 2 with
+      | error m => rw [h] at hres; cases hres
+      | ok sol => exact ⟨sol, rfl⟩
+    obtain ⟨solRef, href⟩ := href
+    obtain ⟨sol, hsol, _⟩ := colFD_options
+      { envCoup with inc := ⟨false, true, false⟩, dispOnly := true } lay (by decide) (by decide) (by decide)
+      (fun _ => 1) 2 solRef href
+    have hres : (match colFD { envCoup with inc := ⟨false, true, false⟩, dispOnly := true } lay
+          (fun _ => 1) 2 with
+        | .ok sol => sol.length
+        | .error _ => 0) = 3 := by decide +kernel
+    rw [hsol] at hres
+    exact ⟨sol, hsol, hres⟩
 
 end PyYetiVerif.C02
